@@ -132,7 +132,7 @@ theorem transparent (K : GitKernel) (H : Hooks) (hH : WF H) (argv : List Str) (w
   | killed => exact absurd rfl hk0
   | panicked =>
     right
-    exact ⟨Or.inr rfl, hu0, by decide, hd0 (Or.inl rfl)⟩
+    exact ⟨Or.inr rfl, hu0, (by show panicStatus ≠ 0; decide), hd0 (Or.inl rfl)⟩
   | exited c =>
     right
     exact ⟨Or.inl rfl, hu0, hz0 c rfl, hd0 (Or.inr ⟨c, rfl⟩)⟩
@@ -241,3 +241,176 @@ theorem hooks_never_touch_u (K : GitKernel) (H : Hooks) (hH : WF H) (argv : List
         ⟨(K.G (toVec (parse argv)) [] s1.w).world, s1.plan, s1.diag⟩ = r2 at *
       obtain ⟨e2, s2⟩ := r2
       cases e2 <;> exact ⟨hs1u, fun _ => this, by simp⟩
+
+/-! ## 4. Refusal -/
+
+/-- (file, fn) of the reachable `process::exit(<number>)` sites. -/
+def exitFamilies : List (Str × Str) :=
+  ((WrapperTables.exits.filter (fun e => e.reachable && decide (e.kind = .lit))).map (fun e => (e.file, e.fn))).eraseDups
+
+/-- **C06 refusal inventory.** Over the exit sites extracted now (git_handlers.rs, commands/hooks/*.rs and
+    every other function reachable from `handle_git`):
+    * literal exits come in exactly three families: git cannot be spawned/waited for (`proxy_to_git`), no
+      real git binary can be located when the configuration is first built (`config.rs`), and the
+      pre-commit checkpoint failure (`commit_pre_command_hook`) — each with a non-zero code and an
+      `eprintln!` right before it;
+    * there is no `exit(<expression>)` and no `abort`; the child's status is mirrored in `exit_with_status` only;
+    * inside the hook modules the pre-commit site is the only exit, it is dispatched before git under
+      `commit` only and never after git; no literal exit is reachable from the post hooks other than the
+      start-up one (which can only fire at the first `Config::get()`, before any hook: `configInitOnce`). -/
+theorem refusal_only_precommit :
+    exitFamilies = [(chars% "src/commands/git_handlers.rs", chars% "proxy_to_git"),
+                    (chars% "src/commands/hooks/commit_hooks.rs", chars% "commit_pre_command_hook"),
+                    (chars% "src/config.rs", chars% "resolve_git_path")] ∧
+    (∀ e ∈ WrapperTables.exits, e.reachable = true → e.kind = .lit → e.code ≠ 0 ∧ e.diag = true) ∧
+    (∀ e ∈ WrapperTables.exits, e.reachable = true → e.kind ≠ .dynamic ∧ e.kind ≠ .abort) ∧
+    (∀ e ∈ WrapperTables.exits, e.reachable = true → (e.kind = .mirror ∨ e.kind = .mirrorSignal) →
+        e.fn = chars% "exit_with_status") ∧
+    ((WrapperTables.exits.filter (fun e => (chars% "src/commands/hooks/").isPrefixOf e.file)).map (·.fn)
+        = [chars% "commit_pre_command_hook"]) ∧
+    ((WrapperTables.preDispatch.filter
+        (fun d => d.hooks.contains (chars% "commit_hooks::commit_pre_command_hook"))).map (·.cmd) = [commitWord]) ∧
+    (WrapperTables.postDispatch.all
+        (fun d => !d.hooks.contains (chars% "commit_hooks::commit_pre_command_hook")) = true) ∧
+    (∀ e ∈ WrapperTables.exits, e.reachable = true → e.phases.post = true → e.kind = .lit →
+        e.fn = chars% "resolve_git_path") := by
+  decide +kernel
+
+/-- model side of the same fact: with hook programs consistent with the inventories, a refusal (an exit
+    before git) happens only for `commit`, or in the start-up prologue. -/
+theorem refused_only_commit_or_startup (K : GitKernel) (H : Hooks) (hH : WF H) (argv : List Str) (w : World)
+    (plan : Plan) (hc : (parse argv).command ≠ some commitWord)
+    (hp : NoExit (H.prologue (parse argv))) : (run K H argv w plan).kind ≠ .refused := by
+  have h0 := exec_noexit K hp ⟨w, plan, false⟩
+  simp only [run]
+  generalize execProg K (H.prologue (parse argv)) ⟨w, plan, false⟩ = r0 at *
+  obtain ⟨e0, s0⟩ := r0
+  cases e0 with
+  | killed => simp
+  | panicked => simp
+  | exited c => exact absurd rfl (h0 c)
+  | finished =>
+    have h1 := exec_noexit K (hH.pre_exit_only_commit (parse argv) hc) s0
+    simp only []
+    generalize execProg K (H.pre (parse argv)) s0 = r1 at *
+    obtain ⟨e1, s1⟩ := r1
+    cases e1 with
+    | killed => simp
+    | exited c => exact absurd rfl (h1 c)
+    | finished => simp only []; split <;> simp
+    | panicked => simp only []; split <;> simp
+
+/-! ## 5. Non-vacuity: a kernel satisfying F1/F2 tightly, hook programs satisfying `WF`, and what goes wrong without them -/
+
+/-- a git in which every invocation that is NOT `callOk` visibly changes `U` (and fails), every `callOk` one
+    changes `A` only: F2 holds and is tight; F1 holds for every command line. -/
+def tightKernel : GitKernel where
+  G := fun argv refs w =>
+    if callOk argv refs then ⟨{ w with a := { w.a with objects := argv.headD [] :: w.a.objects } }, 0, []⟩
+    else ⟨{ w with u := { w.u with hookLog := argv.headD [] :: w.u.hookLog } }, 1, argv.headD []⟩
+  indep := fun _ => True
+  frame_indep := by
+    intro argv u a a' _
+    by_cases h : callOk argv [] = true <;> simp [h]
+  frame_confined := by
+    intro argv refs w h
+    simp [h]
+
+def notesAddArgv : List Str :=
+  [chars% "-c", chars% "core.hooksPath=/dev/null", chars% "-C", chars% "/r", chars% "--no-pager",
+   chars% "notes", chars% "--ref=ai", chars% "add", chars% "-f", chars% "-F", chars% "-", chars% "abc"]
+def revParseArgv : List Str := [chars% "rev-parse", chars% "--is-bare-repository", chars% "--git-dir", chars% "--git-common-dir"]
+
+/-- hook programs of the shape the code has: a start-up probe, a pre-commit program that refuses when its
+    state read fails, a post-commit program that writes a note and its journal when the commit succeeded. -/
+def demoHooks : Hooks where
+  prologue := fun _ => .step (.git revParseArgv []) fun _ => .step (.fsA id) fun r =>
+    match r with
+    | .err => .panic      -- `ensure_config_directory().unwrap()`
+    | _ => .done
+  pre := fun p =>
+    if p.command = some commitWord then
+      .step (.readA fun a => (a.aiFiles.lookup (chars% "checkpoints.jsonl")).getD []) fun r =>
+        match r with
+        | .err => .exit 1
+        | _ => .done
+    else .done
+  post := fun p st =>
+    if p.command = some commitWord ∧ st = 0 then
+      .step (.git notesAddArgv []) fun _ => .step (.fsA id) fun _ => .done
+    else .done
+
+theorem demoHooks_wf : WF demoHooks where
+  prologue_confined := fun _ => .step _ _ (by decide) fun _ => .step _ _ rfl fun r => by
+    cases r <;> first | exact .done | exact .panic
+  pre_confined := fun p => by
+    unfold demoHooks; simp only []
+    split
+    · exact .step _ _ rfl fun r => by cases r <;> first | exact .done | exact .exit 1
+    · exact .done
+  post_confined := fun p st => by
+    unfold demoHooks; simp only []
+    split
+    · exact .step _ _ (by decide) fun _ => .step _ _ rfl fun _ => .done
+    · exact .done
+  prologue_exits_nz := fun _ => .step _ _ fun _ => .step _ _ fun r => by
+    cases r <;> first | exact .done | exact .panic
+  pre_exits_nz := fun p => by
+    unfold demoHooks; simp only []
+    split
+    · exact .step _ _ fun r => by cases r <;> first | exact .done | exact .exit 1 (by decide)
+    · exact .done
+  post_noexit := fun p st => by
+    unfold demoHooks; simp only []
+    split
+    · exact .step _ _ fun _ => .step _ _ fun _ => .done
+    · exact .done
+  pre_exit_only_commit := fun p hc => by
+    unfold demoHooks; simp only []
+    rw [if_neg hc]
+    exact .done
+
+def w0 : World := ⟨⟨chars% "refs/heads/main", [], [], [], [], [], []⟩, ⟨[], [], [], []⟩⟩
+def commitArgv : List Str := [chars% "-c", chars% "user.name=x", chars% "commit", chars% "-m", chars% "msg"]
+
+/-- `commit` through the demo hooks: git runs, `U` / status / stdout as plain git, `A` grew. -/
+example : (run tightKernel demoHooks commitArgv w0 []).kind = .gitRan := by decide
+example : (run tightKernel demoHooks commitArgv w0 []).world.u = (tightKernel.G commitArgv [] w0).world.u := by decide
+example : (run tightKernel demoHooks commitArgv w0 []).world.a ≠ (tightKernel.G commitArgv [] w0).world.a := by decide
+/-- the refusal branch is reachable (first step of the pre-commit program fails): status 1, diagnostic, `U` as it was. -/
+example : (run tightKernel demoHooks commitArgv w0 [none, none, some .fail]).kind = .refused ∧
+    (run tightKernel demoHooks commitArgv w0 [none, none, some .fail]).status = 1 ∧
+    (run tightKernel demoHooks commitArgv w0 [none, none, some .fail]).world.u = w0.u := by decide
+
+/-- **Why `WF` is needed (negation witness).** A post hook that runs `git update-ref refs/heads/x` (or `git add`)
+    is not `Confined`, and with it the wrapper's `U` differs from plain git's. -/
+def badHooks : Hooks :=
+  { demoHooks with post := fun _ _ => .step (.git [chars% "update-ref", chars% "refs/heads/x", chars% "HEAD"] []) fun _ => .done }
+
+theorem witness_unconfined_post_hook :
+    ¬ Confined (badHooks.post (parse commitArgv) 0) ∧
+    (run tightKernel badHooks commitArgv w0 []).world.u ≠ (tightKernel.G commitArgv [] w0).world.u := by
+  refine ⟨?_, by decide⟩
+  intro h
+  cases h with
+  | step _ _ ha _ => exact absurd ha (by decide)
+
+/-- a post hook that exits replaces the child's status (`post_noexit` is needed): git failed, the wrapper says 0. -/
+def overrideHooks : Hooks := { demoHooks with post := fun _ _ => .exit 0 }
+theorem witness_post_exit_overrides_status :
+    (tightKernel.G [chars% "frobnicate"] [] w0).status = 1 ∧
+    (run tightKernel overrideHooks [chars% "frobnicate"] w0 []).status = 0 := by decide
+
+#print axioms inventory_confined
+#print axioms skeleton_holds
+#print axioms child_argv
+#print axioms argv_identity
+#print axioms transparent
+#print axioms hooks_never_touch_u
+#print axioms refusal_only_precommit
+#print axioms refused_only_commit_or_startup
+#print axioms demoHooks_wf
+#print axioms witness_unconfined_post_hook
+#print axioms witness_post_exit_overrides_status
+
+end GitAi.C06
